@@ -1595,9 +1595,128 @@ impl<'r> Gen<'r> {
         self.end_line();
     }
 
+    /// Rare "more than 2^8 of something" programs: a counter or index narrower than it should be
+    /// only shows beyond 255 (or 65 535) items.
+    fn huge_stmt(&mut self) {
+        self.constructs.push("huge-construct");
+        let n = self.r.range(260, 420);
+        match self.r.below(5) {
+            0 => {
+                // a call with hundreds of arguments: positional, then keywords and starred mixed
+                self.emit_name();
+                self.open("(");
+                for i in 0..n {
+                    if i > 0 {
+                        self.comma();
+                    }
+                    match if i < 40 { 0 } else { self.r.below(4) } {
+                        0 if i < 40 => self.number(),
+                        1 | 0 => {
+                            self.emit(&format!("k{i}"));
+                            self.emit("=");
+                            self.emit_name();
+                        }
+                        2 => {
+                            self.emit("*");
+                            self.emit_name();
+                        }
+                        _ => {
+                            self.emit(&format!("kw{i}"));
+                            self.emit(" = ");
+                            self.number();
+                        }
+                    }
+                }
+                self.close(")");
+                self.end_line();
+            }
+            1 => {
+                // an f-string with hundreds of parts, implicitly concatenated with a second token
+                self.emit_name();
+                self.emit(" = (f'");
+                for i in 0..n {
+                    if i % 3 == 0 {
+                        self.emit("t ");
+                    }
+                    self.emit("{");
+                    self.emit_name();
+                    if i % 7 == 0 {
+                        self.emit(":>4");
+                    }
+                    self.emit("}");
+                }
+                self.emit("'");
+                self.eol();
+                self.emit("    f'{");
+                self.emit_name();
+                self.emit("!r}')");
+                self.end_line();
+            }
+            2 => {
+                // a dict display with hundreds of pairs and unpackings over many lines
+                self.emit_name();
+                self.emit(" = ");
+                self.open("{");
+                for i in 0..n {
+                    if i > 0 {
+                        self.comma();
+                    }
+                    if i % 17 == 3 {
+                        self.emit("**");
+                        self.emit_name();
+                    } else {
+                        self.emit(&format!("{i}"));
+                        self.emit(": ");
+                        self.emit_name();
+                    }
+                }
+                self.close("}");
+                self.end_line();
+            }
+            3 => {
+                // hundreds of decorators on one class with keywords before a starred base
+                for i in 0..n {
+                    self.emit("@");
+                    self.emit_name();
+                    if i % 5 == 0 {
+                        self.emit("(k=1, *a)");
+                    }
+                    self.end_line();
+                }
+                self.emit("class Huge(k=1, *b): pass");
+                self.end_line();
+            }
+            _ => {
+                // a function with hundreds of parameters with defaults and annotations
+                self.emit("def huge(");
+                self.bracket += 1;
+                for i in 0..n {
+                    if i > 0 {
+                        self.comma();
+                    }
+                    self.emit(&format!("p{i}"));
+                    if i % 4 == 0 {
+                        self.emit(": ");
+                        self.emit_name();
+                    }
+                    if i > 100 {
+                        self.emit("=");
+                        self.number();
+                    }
+                }
+                self.bracket -= 1;
+                self.emit("): pass");
+                self.end_line();
+            }
+        }
+    }
+
     pub fn module(&mut self, n_stmts: u64) {
         if self.r.chance(1, 40) {
             self.wide_stmt();
+        }
+        if self.r.chance(1, 150) {
+            self.huge_stmt();
         }
         for _ in 0..n_stmts {
             if self.r.chance(1, 12) {
